@@ -26,11 +26,12 @@ type Program struct {
 	stored   map[*ssa.Global]bool // globals written outside package initialisers
 	notes    []string
 	byKey    map[string]*ssa.Function
+	ghostMemo map[*ssa.Function]map[string]bool
 }
 
 // LoadProgram loads the given packages of /repo's working tree (build tag verif) and their contracts.
 func LoadProgram(repoDir, verifDir string, pkgPaths []string, overlay map[string][]byte) (*Program, error) {
-	P := &Program{db: NewSpecDB(), fucs: map[string]bool{}, repoDir: repoDir, verifDir: verifDir, stored: map[*ssa.Global]bool{}, byKey: map[string]*ssa.Function{}}
+	P := &Program{db: NewSpecDB(), fucs: map[string]bool{}, repoDir: repoDir, verifDir: verifDir, stored: map[*ssa.Global]bool{}, byKey: map[string]*ssa.Function{}, ghostMemo: map[*ssa.Function]map[string]bool{}}
 	env := append(os.Environ(), "GOFLAGS=-mod=mod", "GOPROXY=off", "GOTOOLCHAIN=auto")
 	// GOSUMDB must stay at its default for the offline toolchain switch to be accepted
 	var clean []string
